@@ -331,7 +331,61 @@ def chk_vector_blocks(c):
     assert err <= 1e-11 * max(1.0, np.max(np.abs(ref))), '%s with %d components in %dD differs from blockdiag of the scalar form: max error %g' % (vec, nc, dim, err)
 
 
-CHECKS = {'assemble': chk_assemble, 'vector_blocks': chk_vector_blocks}
+_SEQ_BASES = [('inner(grad(u), grad(v))*dx', 2, 4), ('u.dx(0)*v.dx(1)*dx', 2, 3), ('Dx(u, 0, parametric=True)*Dx(v, 0, parametric=True)*dx', 2, 2),
+              ('(inner(grad(u), grad(v)) + u.dt()*v)*dx', 2, 2), ('f*u*v*dx', 2, 2)]
+_seq_memo = {}
+
+
+def _sequence_groups(tier):
+    """a form followed by its one-token neighbours (physical <-> parametric derivative, another derivative direction or order, another
+    flag of an input field) and the form again: compiled and assembled in ONE process, where compile_vform serves assembler classes
+    from a cache keyed by VForm.hash() -- forms that differ in one attribute must not be served each other's assembler"""
+    if tier in _seq_memo:
+        return _seq_memo[tier]
+    from pyiga import vform as m
+    groups = []
+    for expr, dim, cap in _SEQ_BASES:
+        for b in formgen.base_forms():
+            if b['expr'] == expr and b['dim'] == dim and _usable(b):
+                break
+        else:
+            continue
+        seq, seen = [b], {repr(b)}
+        for desc, nb in formgen.neighbours(b):
+            if repr(nb) in seen or not _usable(nb) or 'updatable' in desc:
+                continue
+            try:
+                formgen.build(nb, vform=m).finalize()
+                if not formgen.is_multilinear(nb, vform=m):
+                    continue
+            except Exception:
+                continue
+            seen.add(repr(nb))
+            seq.append(nb)
+            if tier == 'quick' and len(seq) > cap:
+                break
+        if len(seq) > 1:
+            groups.append(seq + [b])
+    _seq_memo[tier] = groups
+    return groups
+
+
+def _seq_case(s, k):
+    import random
+    rng = random.Random(1000 + k)
+    return {'spec': s, 'kvs': _kvs_for(s, rng, k), 'kvs2': _second_space(_kvs_for(s, rng, k), k + 1), 'geo': 'bump', 'seed': k}
+
+
+def chk_sequence(c):
+    for k, s in enumerate(c['specs']):
+        try:
+            chk_assemble(_seq_case(s, k % 3))
+        except AssertionError as e:
+            raise AssertionError('form %d of the sequence (%s), assembled after %r in the same process: %s' % (
+                k, s['expr'], [t['expr'] for t in c['specs'][:k]], e))
+
+
+CHECKS = {'assemble': chk_assemble, 'vector_blocks': chk_vector_blocks, 'sequence': chk_sequence}
 
 
 def _usable(spec):
@@ -405,6 +459,9 @@ def warmup(tier):
         jobs.append(lambda case=case: chk_assemble(case))
     for case in _vector_block_cases(tier):
         jobs.append(lambda case=case: chk_vector_blocks(case))
+    for g in _sequence_groups(tier):
+        for k, s_ in enumerate(g[1:-1]):
+            jobs.append(lambda case=_seq_case(s_, (k + 1) % 3): chk_assemble(case))
     return jobs
 
 
@@ -419,6 +476,8 @@ def generate(tier, rng):
     quick = tier == 'quick'
     for case in _vector_block_cases(tier):
         yield 'vector_blocks', case
+    for g in _sequence_groups(tier):
+        yield 'sequence', {'specs': g}
     # two-space (Petrov-Galerkin) forms: degree gaps in both directions on the non-affine map (the node count is max degree over BOTH spaces + 1)
     brs = [[0.0, 0.5, 1.0], [0.0, 0.3, 0.55, 1.0]]
     for s in specs(tier):
